@@ -58,7 +58,7 @@ GENERAL_SCALARS = [0.1, -0.3, 1.0 / 3, 2.5, -1.7, 0.7]
 
 def EXPECTED_BRANCHES(ctx=None):
     return (fc.history_expected_branches() + fc.wide_expected_branches('C09') +
-            fc.forms_expected_branches() + LEAVES_BRANCHES + REACH_BRANCHES +
+            fc.forms_expected_branches() + LEAVES_BRANCHES + REACH_BRANCHES + XTREE_BRANCHES +
             ['lipschitz/nested/{}/{}'.format(k, f) for k in NESTED_KINDS for f, _ in NESTED_FACTORS])
 
 # --------------------------------------------------------------------------
@@ -332,6 +332,74 @@ def moreau_value_fn(r, S):
     return val
 
 
+def wire_x(f, S):
+    """Wire expression in the extended language FnX (Model/FunctionalsLeaves.lean) of a live
+    functional that `fc.wire` cannot serialise: KullbackLeibler / KullbackLeiblerConvexConj /
+    L2Norm leaves under scalar multiples, sums, translations, quadratic perturbations; every
+    subtree `fc.wire` accepts is embedded as it is."""
+    import odl.solvers as sol
+    from odl.solvers.functional import functional as F
+    from odl.solvers.functional.default_functionals import KullbackLeiblerConvexConj as KLCC
+    try:
+        return fc.wire(f, S, need_inverse=False)
+    except NoModel:
+        pass
+    t = type(f)
+    if S.is_pspace and t in (sol.KullbackLeibler, KLCC):
+        raise NoModel('KL on product space')
+    if t is sol.KullbackLeibler:
+        return 'xkl|' + fl([1.0] * S.size if f.prior is None else S.flat(f.prior))
+    if t is KLCC:
+        return 'xklcc|' + fl([1.0] * S.size if f.prior is None else S.flat(f.prior))
+    if t is sol.L2Norm or (t is sol.LpNorm and f.exponent == 2):
+        return 'xl2'
+    if t is F.FunctionalLeftScalarMult:
+        return 'xlscal|{}|{}'.format(fs(float(f.scalar)), wire_x(f.functional, S))
+    if t is F.FunctionalRightScalarMult:
+        return 'xrscal|{}|{}'.format(fs(float(f.scalar)), wire_x(f.functional, S))
+    if t is F.FunctionalScalarSum:
+        return 'xssum|{}|{}'.format(fs(float(f.scalar)), wire_x(f.left, S))
+    if t is F.FunctionalSum:
+        return 'xsum|{}|{}'.format(wire_x(f.left, S), wire_x(f.right, S))
+    if t is F.FunctionalTranslation:
+        return 'xtrans|{}|{}'.format(fl(S.flat(f.translation)), wire_x(f.functional, S))
+    if t is F.FunctionalQuadraticPerturb:
+        return 'xqp|{}|{}|{}|{}'.format(fs(float(f.quadratic_coeff)), fl(S.flat(f.linear_term)),
+                                        fs(float(f.constant)), wire_x(f.functional, S))
+    raise NoModel(t.__name__)
+
+
+XTREE_BRANCHES = ['xtree/' + b for b in ('kl', 'klcc', 'l2', 'derived', 'value', 'grad', 'deriv')]
+
+
+def xtree_recipes(rng, S):
+    """Trees over the new leaves, points chosen inside the leaves' domains most of the time."""
+    n = S.size
+    out = []
+    leaves = [['l2']] + ([] if S.is_pspace else [['kl', None], ['klcc', None],
+              ['kl', [rng.randint(1, 8) / 4.0 for _ in range(n)]],
+              ['klcc', [rng.randint(1, 8) / 4.0 for _ in range(n)]]])
+    for leaf in leaves:
+        dom = leaf_domain(leaf)
+        sh = [rng.choice([0.0, 0.25, 0.5]) for _ in range(n)]
+        if dom == 'pos':
+            tr = [-t for t in sh]
+        else:
+            tr = sh
+        other = rng.choice([['l2sq'], ['l1'], ['lin', fc.rvec(rng, n), 0.5], ['l2']])
+        out += [
+            ['lscal', rng.choice([2.0, -1.5, 0.5]), leaf],
+            ['sum', ['trans', tr, leaf], other],
+            ['qp', rng.choice([1.0, 0.5]), fc.rvec(rng, n), -1.0, ['ssum', 2.0, leaf]],
+            ['sum', ['lscal', 3.0, ['trans', tr, leaf]], ['qp', 0.0, fc.rvec(rng, n), 0.0, other]],
+        ]
+        if dom is None:
+            out.append(['rscal', rng.choice([2.0, -0.5]), ['sum', leaf, other]])
+        elif dom == 'pos':
+            out.append(['rscal', rng.choice([2.0, 0.5]), leaf])
+    return out
+
+
 def check_tree(ctx, r, S, stream, via_ops, lines, pend, n_pts=2, oracle_only=False):
     """Evaluate one recipe on the real code: oracle checks immediately, model comparisons are
     queued (lines/pend) for the driver batch."""
@@ -345,11 +413,23 @@ def check_tree(ctx, r, S, stream, via_ops, lines, pend, n_pts=2, oracle_only=Fal
         ctx.violation('construct ' + key0, 'constructing the functional raised ' + st, desc0)
         return
     classes = tuple(sorted(set(fc.recipe_classes(r))))
+    wx = None
     try:
         w = None if oracle_only else fc.wire(f, S, need_inverse=False)
     except NoModel as e:
         w = None
-        ctx.hit('oracle-only:' + str(e)[:40])
+        try:
+            wx = wire_x(f, S)       # extended language FnX: KL / KL-conj / L2 leaves
+            for tok, br in (('xkl|', 'kl'), ('xklcc|', 'klcc'), ('xl2', 'l2')):
+                if tok in wx:
+                    ctx.hit('xtree/' + br)
+            if wx.split('|')[0] not in ('xkl', 'xklcc', 'xl2'):
+                ctx.hit('xtree/derived')
+        except NoModel:
+            ctx.hit('oracle-only:' + str(e)[:40])
+        except Exception as e2:  # noqa
+            ctx.violation('serialise ' + key0, 'reading the functional object raised {}: {}'.format(
+                type(e2).__name__, e2), desc0)
     except Exception as e:  # noqa  attribute missing on a mutated class etc.
         w = None
         ctx.violation('serialise ' + key0, 'reading the functional object raised {}: {}'.format(
@@ -394,6 +474,10 @@ def check_tree(ctx, r, S, stream, via_ops, lines, pend, n_pts=2, oracle_only=Fal
             if w is not None:
                 lines.append('val f={} w={} x={}'.format(w, fc.wl(S), fl(xs)))
                 pend.append(('val', desc, v, S, classes, stream))
+            elif wx is not None and 'xkl' not in wx and math.isfinite(v):
+                ctx.hit('xtree/value')
+                lines.append('xval f={} w={} x={}'.format(wx, fc.wl(S), fl(xs)))
+                pend.append(('val', desc, v, S, classes, 'general'))
             if not math.isfinite(v) and not expected_no_gradient(r):
                 continue
         # gradient / derivative
@@ -443,6 +527,15 @@ def check_tree(ctx, r, S, stream, via_ops, lines, pend, n_pts=2, oracle_only=Fal
             if st == 'ok':
                 lines.append('deriv f={} w={} x={} d={}'.format(w, fc.wl(S), fl(xs), fl(ds)))
                 pend.append(('deriv', desc, dd, S, classes, stream))
+        elif wx is not None:
+            # sqrt / divisions are rounded in floating point: tolerance comparison
+            ctx.hit('xtree/grad')
+            lines.append('xgrad f={} w={} x={}'.format(wx, fc.wl(S), fl(xs)))
+            pend.append(('grad', desc, gl, S, classes, 'general'))
+            if st == 'ok':
+                ctx.hit('xtree/deriv')
+                lines.append('xderiv f={} w={} x={} d={}'.format(wx, fc.wl(S), fl(xs), fl(ds)))
+                pend.append(('deriv', desc, dd, S, classes, 'general'))
 
 
 def lipschitz_oracle(ctx, f, S, L, dom, desc0, key0, classes, n_pairs=12):
@@ -1564,6 +1657,8 @@ def run(ctx, deep=False):
             check_tree(ctx, r, S, 'general', True, lines, pend, n_pts=2 if quick else 4)
         for r in corner_recipes(rng, S):
             check_tree(ctx, r, S, 'exact', True, lines, pend, n_pts=2)
+        for r in xtree_recipes(rng, S):
+            check_tree(ctx, r, S, 'general', rng.random() < 0.7, lines, pend, n_pts=2 if quick else 4)
         for stratum, r in nested_lipschitz_recipes(S):
             ctx.hit('lipschitz/nested/' + stratum)
             check_tree(ctx, r, S, 'exact', True, lines, pend, n_pts=1)
